@@ -163,7 +163,16 @@ def nnlinker(a):
             return r
         return f
 
-    est = NNLinker(n_neighbors=a.get('n_neighbors', 10), threshold=a.get('threshold', 0))
+    emb_method = None
+    if a.get('fixed_embedding') is not None:
+        # an embedding method with SIGNED coordinates (as Spectral / SVD produce): cosine similarities can be negative
+        fixed = np.array(a['fixed_embedding'], dtype=float)
+
+        class _Fixed:
+            def fit_transform(self, adjacency):
+                return fixed.copy()
+        emb_method = _Fixed()
+    est = NNLinker(n_neighbors=a.get('n_neighbors', 10), threshold=a.get('threshold', 0), embedding_method=emb_method)
     orig_core = est._fit_core
 
     def core(embedding, mask):
